@@ -12,6 +12,8 @@ call → critical section under `p_eventual->lock` → (wait) → return.
                    *value = p_eventual->value; return
   test:            acquire; flag = ready (+ value pointer); release; *is_ready = flag
   reset:           acquire; ready = FALSE; release
+  free:            acquire (and never release: "we do not have to unlock it because the entire structure is freed
+                   here"); free(value); free(p_eventual)            — the caller stays at `freed` for good
 
 A `Val` is the content of the value buffer (the bytes as a number; 0 for a 0-byte eventual whose buffer
 pointer is NULL).  Sets are modelled with exactly `nbytes` bytes (partial copies are not).  `ret` carries
@@ -33,7 +35,7 @@ deriving DecidableEq, Repr
 inductive Rc | ok | errEventual | errInvEventual
 deriving DecidableEq, Repr
 
-inductive Op | set | setbig | wait | test | reset
+inductive Op | set | setbig | wait | test | reset | free
 deriving DecidableEq, Repr
 
 inductive Pc
@@ -49,6 +51,9 @@ inductive Pc
   | waitDone
   | testCalled | testCS0 | testCS1 | testDone0 | testDone1
   | resetCalled | resetCS | resetDone
+  | freeCalled   -- ABT_eventual_free: about to acquire the lock
+  | freeCS       -- lock held (for ever), the memory is being released
+  | freed        -- ABT_eventual_free has returned; the object is gone, the lock word stays taken
 deriving DecidableEq, Repr
 
 inductive Ev
@@ -90,6 +95,7 @@ def stepCall (s : St) (a : Actor) (op : Op) (v : Val) : Option St :=
   | .wait => some (setPc s a (if s.kind a = .task then .rejected else .waitCalled))
   | .test => some (setPc s a .testCalled)
   | .reset => some (setPc s a .resetCalled)
+  | .free => some (setPc s a .freeCalled)
 
 def stepRet (s : St) (a : Actor) (op : Op) (rc : Rc) (r : Bool) (v : Val) : Option St :=
   match s.pc a, op, rc with
@@ -102,6 +108,7 @@ def stepRet (s : St) (a : Actor) (op : Op) (rc : Rc) (r : Bool) (v : Val) : Opti
   | .testDone0, .test, .ok => if r = false then some (setPc s a .idle) else none
   | .testDone1, .test, .ok => if r = true ∧ v = s.value then some (setPc s a .idle) else none
   | .resetDone, .reset, .ok => some (setPc s a .idle)
+  | .freeCS, .free, .ok => some (setPc s a .freed)
   | _, _, _ => none
 
 /-- the winning set: copy, mark ready (both plain stores right after the lock was taken) -/
@@ -117,13 +124,14 @@ def stepAcq (s : St) (a : Actor) (old : Bool) : Option St :=
   if old ≠ s.lock.isSome then none else
   if old then
     (if s.pc a = .setCalled ∨ s.pc a = .waitCalled ∨ s.pc a = .testCalled ∨ s.pc a = .resetCalled ∨
-        ((s.pc a = .waiting ∨ s.pc a = .woken) ∧ s.kind a ≠ .ult) then some s else none)
+        s.pc a = .freeCalled ∨ ((s.pc a = .waiting ∨ s.pc a = .woken) ∧ s.kind a ≠ .ult) then some s else none)
   else
     match s.pc a with
     | .setCalled => some (if s.ready then lockAs s a .setErrCS else doSet s a)
     | .waitCalled => some (if s.ready then lockAs s a .passCS else setPc { s with lock := some a } a .waitCS)
     | .testCalled => some (lockAs s a (if s.ready then .testCS1 else .testCS0))
     | .resetCalled => some (setPc { s with lock := some a, ready := false, epoch := s.epoch + 1 } a .resetCS)
+    | .freeCalled => if s.q = [] then some (setPc { s with lock := some a } a .freeCS) else none   -- UB assertion: nobody queued
     | .waiting => if s.kind a = .ult then none else some (setPc { s with lock := some a } a .reW)
     | .woken => if s.kind a = .ult then none else some (setPc { s with lock := some a } a .reR)
     | _ => none
